@@ -241,7 +241,10 @@ pub(crate) fn k_remove_inode<Fd: AsFd>(dirfd: Fd, name: &Path) -> Result<(), Err
     c.name_len = nl;
     c.flags = 0xbeef; // "unlink-or-rmdir of (dirfd, name)"
     if k.fails() {
-        c.errno = any_errno();
+        // the errno of the failed removal is NOT pinned by the scenario: every errno 1..=133
+        let e: i32 = kani::any();
+        kani::assume(e >= 1 && e <= 133);
+        c.errno = e;
         k.push(c);
         Err(ErrorImpl::OsError {
             operation: "remove inode".into(),
@@ -314,8 +317,14 @@ fn scan_body(plan: [u8; 4], fixed_errno: i32) {
     std::mem::forget(res);
     let k = kref();
     assert!(!k.any_violation());
-    // [0] remove_inode fails (not ENOENT) -> [1] scan open
-    assert!(k.ncalls >= 2 && k.log[0].flags == 0xbeef && !k.log[0].ok);
+    // [0] remove_inode fails with an arbitrary errno: ENOENT => "already gone", Ok, nothing else;
+    // ANY other errno => the slow path must be taken (no other errno means success)
+    assert!(k.ncalls >= 1 && k.log[0].flags == 0xbeef && !k.log[0].ok);
+    if k.log[0].errno == libc::ENOENT {
+        assert!(ok && k.ncalls == 1);
+        return;
+    }
+    assert!(k.ncalls >= 2, "a failed removal (errno other than ENOENT) was reported as success");
     let c = k.log[1];
     assert!(c.kind == C_OPENAT && c.dirfd == d && bytes_eq(&c.name, c.name_len, nameb, len));
     // the scan open never follows a link and only opens directories
